@@ -10,11 +10,13 @@ PLAN = dict(
     floor=dict(quick=50, thorough=200),
     tiers=dict(
         quick=[det("rel", H, "cs-rel", 16, 120, 5, tso=True, time_cap=30),
-               det("dbg", H, "cs-dbg", 16, 60, 5, tso=True, time_cap=20)],
+               det("dbg", H, "cs-dbg", 16, 60, 5, tso=True, time_cap=20),
+               tsan("C08", 4, 80)],
         thorough=[det("rel", H, "cs-rel", 16, 3000, 6, tso=True, time_cap=240),
                   det("dbg", H, "cs-dbg", 16, 1200, 6, tso=True, time_cap=150),
                   det("enum-wake", H, "cs-rel", 16, 150, 2, tso=True, time_cap=90, enum="wake", enum_cap=200),
-                  det("enum-sbload", H, "cs-rel", 16, 150, 2, tso=True, time_cap=90, enum="sbload", enum_cap=200)],
+                  det("enum-sbload", H, "cs-rel", 16, 150, 2, tso=True, time_cap=90, enum="sbload", enum_cap=200),
+               tsan("C08", 16, 600)],
     ),
 )
 TEXT = dict(
